@@ -33,14 +33,61 @@ package stateless
 //@   ensures err == nil ==> uf("resultsHash", ufr[cmttypes.ABCIResults]("newResults", result0.TxsResults)) == old(bytesId(resultsHash))
 //@   note the per-transaction results are bound to the LastResultsHash of the following header through the results hash
 
+//@ ghost var GFetchRH int
+//@ ghost var GFetchSR int
+
 //@ func Core.resultsHash
-//@   trusted
-//@   modifies nothing
+//@   props C19
+//@   requires c != nil
+//@   trustframe
+//@   modifies GFetchRH
+//@   onlyhere resultsHashCache.Put
+//@   precall lru\.Cache\)\.Put$ :: GFetchRH > old(GFetchRH)
+//@   precall lru\.Cache\)\.Put$ :: argIs(0, height)
+//@   precall stateless\.Core\)\.fetchResultsHash$ :: argIs(1, height)
 //@   note returns LastResultsHash of the verified light block at height+1
+//@   note partially verified (was trusted): the cache of verified results hashes is written HERE only (onlyhere: no other function of the package calls resultsHashCache.Put), under the requested height, with what fetchResultsHash answered for that same height in this call - the cache is keyed by the height whose results the hash commits to (seed C19_i let the state-root path store LastResultsHash of light block L under L: results of block L-1 were then accepted as the results of block L). Assumed: the LRU cache returns what was put under a key
+
+//@ func Core.fetchResultsHash
+//@   props C19
+//@   requires c != nil
+//@   precall stateless\.Core\)\.fetchResultsHashFromLightBlock$ :: argIs(1, height + 1)
+//@   note the results of block h are committed to by the header of block h+1
+
+//@ func Core.fetchResultsHashFromLightBlock
+//@   props C19
+//@   requires c != nil
+//@   precall VerifyLightBlockAt$ :: argIs(1, height)
+//@   ensures-local err == nil ==> defined(lb) && lb != nil && bytesId(result0) == bytesId(lb.LastResultsHash)
+//@   note the hash handed out is the LastResultsHash field of the light block VERIFIED at the requested height
+
+//@ func Core.stateRoot
+//@   props C19
+//@   requires c != nil
+//@   trustframe
+//@   modifies GFetchSR
+//@   onlyhere stateRootCache.Put
+//@   precall lru\.Cache\)\.Put$ :: argIs(0, height) && GFetchSR > old(GFetchSR)
+//@   precall stateless\.Core\)\.fetchStateRoot$ :: argIs(1, height)
+//@   note the cache of verified state roots is written here only, under the requested height, with what fetchStateRoot answered for that height in this call
+
+//@ func Core.fetchStateRoot
+//@   props C19
+//@   requires c != nil
+//@   precall stateless\.Core\)\.fetchStateRootFromLightBlock$ :: argIs(1, height + 1)
+//@   precall stateless\.Core\)\.fetchStateRootFromMetaTx$ :: argIs(1, height)
+//@   note the state root after block h is the AppHash of header h+1, or the root in block h's own metadata transaction
+
+//@ func Core.fetchStateRootFromLightBlock
+//@   props C19
+//@   requires c != nil
+//@   precall VerifyLightBlockAt$ :: argIs(1, height)
+//@   precall hash\.Hash\)\.UnmarshalBinary$ :: defined(lb) && lb != nil && bytesId(argAs[[]byte](0)) == bytesId(lb.AppHash)
+//@   note the root handed out is decoded from the AppHash of the light block verified at the requested height
 
 //@ func Core.verifyBlockResults
 //@   props C19
-//@   modifies nothing
+//@   modifies GFetchRH
 //@   requires c != nil && lb != nil
 //@   ensures err == nil ==> results.Height == lb.Height
 //@   ensures-local err == nil && lastHeight > lb.Height ==> uf("resultsHash", ufr[cmttypes.ABCIResults]("newResults", result0.TxsResults)) == bytesId(resultsHash) && result0 == ufr[*api.BlockResultsMeta]("newBlockResultsMeta.0", results)
